@@ -199,6 +199,13 @@ pub enum FaultKind {
     EpipeAfter,
     /// `n` bytes of the frame are delivered, then nothing more (stall inside a packet).
     StallMid(u16),
+    /// The identity reply is replaced by a well-formed abort `06 1E xx` (no effect elsewhere):
+    /// the terminal refuses to say who it is.
+    IdentityAbort(u8),
+    /// The frame is emitted normally, followed at once by unsolicited bytes: 0 = a complete
+    /// intermediate status, 1 = the first byte of a packet, 2 = a header and part of its body,
+    /// 3 = an extended header announcing 300 bytes and ten of them. The connection stays open.
+    StaleAfter(u8),
 }
 
 #[derive(Clone, Debug, PartialEq, Eq, Serialize, Deserialize)]
@@ -467,7 +474,8 @@ impl PtConn {
     /// Emits one frame, applying the fault planned for this emission point.
     /// Returns false if the connection is dead afterwards.
     fn emit(&mut self, io: &mut TermIo<'_>, e: &Emit, during: (u8, u8), at_ack: bool) -> bool {
-        self.point += 1;
+        // emission points beyond 65535 are never addressed by a plan: saturate
+        self.point = self.point.saturating_add(1);
         let point = self.point;
         let mut pt = self.pt.lock().unwrap();
         let mut fault = pt
@@ -500,6 +508,7 @@ impl PtConn {
         match fault {
             None => {}
             Some(FaultKind::WrongSerial) if !e.identity => {}
+            Some(FaultKind::IdentityAbort(_)) if !e.identity => {}
             Some(kind) => {
                 io.note(format!("fault {:?} at c{} p{}", kind, self.conn, point));
                 match kind {
@@ -560,6 +569,40 @@ impl PtConn {
                         io.fail_writes();
                         return false;
                     }
+                    FaultKind::IdentityAbort(code) => {
+                        fire(&mut pt, kind);
+                        let seq = io.seq();
+                        pt.identity_sent.push((self.conn, format!("<abort {code:02x}>"), seq));
+                        io.release_after(delay, &rc::abort(code, rc::AbortExtra::None));
+                        return true;
+                    }
+                    FaultKind::StaleAfter(form) => {
+                        fire(&mut pt, kind);
+                        let mut bytes = e.frame.clone();
+                        bytes.extend_from_slice(match form % 4 {
+                            0 => &[0x04, 0xff, 0x01, 0x0e],
+                            1 => &[0x04],
+                            2 => &[0x04, 0xff, 0x03, 0x01],
+                            _ => &[0x06, 0xd3, 0xff, 0x2c, 0x01, 0x06, 0x82, 0x01, 0x28, 0x25, 0x82, 0x01, 0x24],
+                        });
+                        if e.identity {
+                            let serial = String::from_utf8_lossy(&e.frame[3..11]).to_string();
+                            pt.identity_sent.push((self.conn, serial, seq));
+                        }
+                        // the frame's side effect (booking, release, reversal) happens as usual
+                        match &e.effect {
+                            Effect::None => {}
+                            other => {
+                                let eff = other.clone();
+                                drop(pt);
+                                self.apply_effect(&eff);
+                                io.release_after(delay, &bytes);
+                                return true;
+                            }
+                        }
+                        io.release_after(delay, &bytes);
+                        return true;
+                    }
                     FaultKind::WrongSerial => {
                         fire(&mut pt, kind);
                         let mut f = e.frame.clone();
@@ -580,7 +623,17 @@ impl PtConn {
             let seq = io.seq();
             pt.identity_sent.push((self.conn, serial, seq));
         }
-        match &e.effect {
+        let eff = e.effect.clone();
+        drop(pt);
+        self.apply_effect(&eff);
+        io.release_after(delay, &e.frame);
+        true
+    }
+
+    fn apply_effect(&mut self, effect: &Effect) {
+        let mut pt = self.pt.lock().unwrap();
+        let pt = &mut *pt;
+        match effect {
             Effect::None => {}
             Effect::Book { receipt, amount, currency, token } => {
                 let by_request = pt.requests.len().saturating_sub(1);
@@ -618,9 +671,6 @@ impl PtConn {
                 }
             }
         }
-        drop(pt);
-        io.release_after(delay, &e.frame);
-        true
     }
 
     fn anomaly(&mut self, io: &mut TermIo<'_>, msg: String) {
@@ -767,6 +817,21 @@ impl PtConn {
                             let mut ts = rc::card_tlv(h(uid).as_deref(), apps_v.as_deref());
                             ts.push(rc::Tlv::prim(0x1f4c, &[1]));
                             ts.push(rc::Tlv::prim(0x1f50, &[0x20]));
+                            if pt.spec.rich_status {
+                                // everything else the status TLV of a card can carry: a card-side
+                                // pre-authorisation limit (1F0B, BCD), identification item, ATS, sub type, ATQA
+                                let limit = match pt.srng.below(4) {
+                                    0 => 0,
+                                    1 => 1000,
+                                    2 => 999_999_999_999,
+                                    _ => pt.srng.below(5000),
+                                };
+                                ts.push(rc::Tlv::prim(0x1f0b, &rc::bcd(limit, 6)));
+                                ts.push(rc::Tlv::prim(0x1f14, &[0x67, 0x32, 0x00, 0x01]));
+                                ts.push(rc::Tlv::prim(0x1f45, &[0x78, 0x80, 0x82, 0x02]));
+                                ts.push(rc::Tlv::prim(0x1f4d, &[0x00]));
+                                ts.push(rc::Tlv::prim(0x1f4f, &[0x04, 0x00]));
+                            }
                             if let Some(n) = nested_apps {
                                 let inner: Vec<rc::Tlv> = n
                                     .iter()
